@@ -1122,6 +1122,16 @@ fn main() {
         }
     }
 
+    // from here on a case is run only by the shard that emits it
+    let mut lazy = |case: &str| {
+        let mine = index % o.shard.1 == o.shard.0;
+        index += 1;
+        if mine {
+            let (obs, oracle, _) = run_guarded(case);
+            emit(case, &obs, &oracle);
+        }
+    };
+
     // 2. random long histories over all signals (parent-state clearing, take order, group operations)
     let mut rng = Rng::new(o.seed ^ 0xC11);
     let n = if o.thorough() { 200_000 } else { 2_500 };
@@ -1141,8 +1151,7 @@ fn main() {
             parts.push(random_op(&mut r, &sigs));
         }
         let case = parts.join("; ");
-        let (obs, oracle, _) = run_guarded(&case);
-        out(&case, &obs, &oracle);
+        lazy(&case);
     }
 
     // 3. scripts: the signal at every command boundary, two ways of sending it, seven layouts
@@ -1165,8 +1174,7 @@ fn main() {
                 for k in 0..=(2 * sts.len() + 1) {
                     let s: Vec<String> = sts.iter().map(|s| s.to_string()).collect();
                     let case = format!("script {k} {m} {shape} {}", s.join(" "));
-                    let (obs, oracle, _) = run_guarded(&case);
-                    out(&case, &obs, &oracle);
+                    lazy(&case);
                 }
             }
         }
@@ -1210,8 +1218,7 @@ fn main() {
             }
             parts.extend(["run 5".to_string(), "run 6".to_string(), "run 7".to_string(), "take".to_string()]);
             let case = parts.join("; ");
-            let (obs, oracle, _) = run_guarded(&case);
-            out(&case, &obs, &oracle);
+            lazy(&case);
         }
     }
 
@@ -1241,8 +1248,7 @@ fn main() {
                             c /= 6;
                         }
                         let case = format!("multi {layout} {mode} {second} {}", sk.join(" "));
-                        let (obs, oracle, _) = run_guarded(&case);
-                        out(&case, &obs, &oracle);
+                        lazy(&case);
                     }
                 }
             }
@@ -1251,10 +1257,8 @@ fn main() {
     let _ = count;
 
     // 6. `tb`: the trap built-in's forms, kill under every disposition, subshells, wait, EXIT
-    let emit_tb = |case: String, out: &mut dyn FnMut(&str, &str, &str)| {
-        let (obs, oracle, _) = run_guarded(&case);
-        out(&case, &obs, &oracle);
-    };
+    let mut emit_tb = |case: String, _unused: &mut u8| lazy(&case);
+    let mut out = 0u8;
     let igns = ["", "ign INT; ", "ign USR1 TERM QUIT; "];
     // (a) every action form x operand list (names, numbers, EXIT, KILL/STOP, unknown, none)
     let acts = ["-", "E", "c1", "k2"];
